@@ -130,6 +130,7 @@ func removeLocationsFromSourceCodeInfo(
 			// [4,0,2,0,8],[4,0,2,0,8,50000,1],[4,0,2,0,8,50002,1,1],[4,0,2,0,8,50003,0],[4,0,2,0,8,6]
 			// where two field options share the same parent.
 			// Therefore, do not remove the parent path yet.
+			fieldOptionsPaths.registerRemovedDescendant(path)
 			indices[i] = struct{}{}
 			continue
 		}
